@@ -240,3 +240,13 @@ Proof.
     + intros j Hj. replace j with (slot + q + N.of_nat (N.to_nat (j - (slot + q)))) by lia. apply Hh. lia.
     + intros i Hi. apply Hh. lia.
 Qed.
+
+(* every slot of the range of a value holds one of its words *)
+Lemma slot_has_word W o j : 1 <= W -> o / 4 <= j < o / 4 + nsl (o mod 4) W -> exists i, o <= i < o + W /\ i / 4 = j.
+Proof.
+  intros HW Hj. unfold nsl in Hj. destruct (N.eq_dec j (o / 4)) as [E|E].
+  - exists o. lia.
+  - exists (4 * j). lia.
+Qed.
+Lemma word_in_range W o i : o <= i < o + W -> o / 4 <= i / 4 < o / 4 + nsl (o mod 4) W.
+Proof. intros Hi. unfold nsl. lia. Qed.
